@@ -122,8 +122,9 @@ theorem addAll_nonTotal {inv it : Nat} (ps : List PreMeas) {cur : DP} (h : Open 
 theorem addAll_line {inv it : Nat} (lm : LineMeas) {cur : DP} (h : Open inv it cur)
     (hp : ∀ p ∈ lm.pre, p.isTotal = false) :
     ∃ cur', cur.addAll ((lm.pre ++ [lm.main]).map (stamp inv it)) = .ok cur' ∧
+      cur'.ms = cur.ms ++ (lm.pre ++ [lm.main]).map (stamp inv it) ∧
       (lm.main.isTotal = true → DPwf inv it cur'.ms) ∧ (lm.main.isTotal = false → Open inv it cur') := by
-  obtain ⟨c1, h1, _, h1o⟩ := addAll_nonTotal lm.pre h hp
+  obtain ⟨c1, h1, h1ms, h1o⟩ := addAll_nonTotal lm.pre h hp
   have happ : ∀ (xs : List Meas) (d : DP) (m : Meas), ∀ d1, d.addAll xs = .ok d1 →
       d.addAll (xs ++ [m]) = d1.add m := by
     intro xs
@@ -141,11 +142,11 @@ theorem addAll_line {inv it : Nat} (lm : LineMeas) {cur : DP} (h : Open inv it c
   rw [hsplit, happ _ _ _ c1 h1]
   cases hmt : lm.main.isTotal with
   | true =>
-    obtain ⟨c2, h2, _, h2wf⟩ := add_total h1o (stamp inv it lm.main) (by simpa using hmt) rfl rfl
-    exact ⟨c2, h2, fun _ => h2wf, fun h => by simp at h⟩
+    obtain ⟨c2, h2, h2ms, h2wf⟩ := add_total h1o (stamp inv it lm.main) (by simpa using hmt) rfl rfl
+    exact ⟨c2, h2, by rw [h2ms, h1ms, List.append_assoc], fun _ => h2wf, fun h => by simp at h⟩
   | false =>
-    obtain ⟨c2, h2, _, h2o⟩ := add_nonTotal h1o (stamp inv it lm.main) (by simpa using hmt) rfl rfl
-    exact ⟨c2, h2, fun h => by simp at h, fun _ => h2o⟩
+    obtain ⟨c2, h2, h2ms, h2o⟩ := add_nonTotal h1o (stamp inv it lm.main) (by simpa using hmt) rfl rfl
+    exact ⟨c2, h2, by rw [h2ms, h1ms, List.append_assoc], fun h => by simp at h, fun _ => h2o⟩
 
 theorem finish_wf (inv : Nat) (done : List DP) (h : WFfrom inv 1 (done.map (·.ms))) :
     OutcomeWF inv (finish done) := by
@@ -174,7 +175,7 @@ theorem collectLoop_wf (cfg : Cfg) (hc : PreNonTotal cfg.classify) (inv : Nat) (
       · split
         · exact ih it cur done ho hit hd
         · rename_i lm hlm
-          obtain ⟨c', hc', htot, hopen⟩ := addAll_line lm ho (hc l lm hlm)
+          obtain ⟨c', hc', _, htot, hopen⟩ := addAll_line lm ho (hc l lm hlm)
           simp only [hc']
           split
           · rename_i hmt
@@ -307,7 +308,7 @@ theorem collectLoop_marker (cfg : Cfg) (hc : PreNonTotal cfg.classify) (inv : Na
         split
         · exact ih it cur done ho h'
         · rename_i lm hlm
-          obtain ⟨c', hc', _, hopen⟩ := addAll_line lm ho (hc l lm hlm)
+          obtain ⟨c', hc', _, _, hopen⟩ := addAll_line lm ho (hc l lm hlm)
           simp only [hc']
           split
           · exact ih _ _ _ (open_empty inv (it + 1)) h'
@@ -365,5 +366,43 @@ theorem timePLoop_marker (marker : Line → Bool) (classify : Line → Option (L
         intro hx; have := hinv'.cur.noTotal; simp [this] at hx
       simp only [hnt, if_false]
       exact ih st' hinv' hm'
+
+/-! ## the built-in classifiers add non-totals before the line's main measurement -/
+
+theorem preNonTotal_rebenchLog : PreNonTotal classifyRebenchLog := by
+  intro l lm h p hp
+  unfold classifyRebenchLog at h
+  split at h
+  · simp at h; subst h; simp at hp
+  · split at h
+    · simp at h; subst h; simp at hp
+    · cases h
+
+theorem preNonTotal_plainSeconds : PreNonTotal classifyPlainSeconds := by
+  intro l lm h p hp
+  unfold classifyPlainSeconds at h
+  split at h
+  · simp at h; subst h; simp at hp
+  · cases h
+
+theorem preNonTotal_validation : PreNonTotal classifyValidation := by
+  intro l lm h p hp
+  unfold classifyValidation at h
+  split at h
+  · simp at h; subst h; simp at hp; subst hp; rfl
+  · split at h
+    · simp at h; subst h
+      simp at hp
+      rcases hp with hp | hp | hp <;> (subst hp; rfl)
+    · cases h
+
+theorem preNonTotal_timeFormatted : PreNonTotal classifyTimeFormatted := by
+  intro l lm h p hp
+  unfold classifyTimeFormatted at h
+  split at h
+  · simp at h; subst h; simp at hp
+  · split at h
+    · simp at h; subst h; simp at hp
+    · cases h
 
 end RB.Adapters
